@@ -38,7 +38,26 @@ def rule_reinit(P):
         return nkey(["idx", ["fld", base, "event_base.th_notify_fd", "->"], ["int", i]])
     knfn = B("th_notify_fn")
     nbad = 0
+    nbad2 = [0]
     REAL = 111
+    # the flag may also be reset where the new descriptor is made
+    pending_reset_in_callee = False
+    if P.has("evthread_make_base_notifiable_nolock_"):
+        g = P.fn("evthread_make_base_notifiable_nolock_")
+        st = [el for el, lhs, op, rhs in g.stores() if fields_of(lhs)[-1:] == ["event_base.is_notify_pending"] and op == "=" and is_e(strip(rhs), "int") and strip(rhs)[1] == 0]
+        if st:
+            start = (g.entry, -1)
+            for b in g.branch_blocks():
+                if any(is_e(q, "fld") and q[2] == "event_base.th_notify_fn" for q in walk(b.term["cond"])):
+                    c, t = negate_truth(b.term["cond"], True)
+                    lab = "F" if t else "T"          # the edge on which th_notify_fn is NULL (event_reinit has just cleared it)
+                    nxt = [x for x, l in b.succ if l == lab]
+                    if nxt:
+                        start = (nxt[0], -1)
+                    break
+            def good_ret(x):
+                return x.e[0] == "ret" and not (len(x.e) > 1 and x.e[1] is not None and is_e(strip(x.e[1]), "int") and strip(x.e[1])[1] == -1)
+            pending_reset_in_callee = g.path_avoiding(start, good_ret, lambda x: x in st) is None
     for need in (0, 1):
         for sigadd in (0, 1):
             for nopen in (0, 1):
@@ -49,7 +68,7 @@ def rule_reinit(P):
                         if not need and fail in ("init", "evmap"):
                             continue
                         env = {base[1]: 1, ksel: REAL, kneed: need, kdealloc: 1, ksigadd: sigadd, pair(0): 7, pair(1): 8, nfd(0): 9 if nopen else -1, nfd(1): 10 if nopen else -1,
-                               knfn: notifiable, B("th_base_lock"): 0, "event_debug_logging_mask_": 0}
+                               knfn: notifiable, B("th_base_lock"): 0, "event_debug_logging_mask_": 0, B("is_notify_pending"): notifiable}
                         def hook(el, e_):
                             n = callee_name(el.e)
                             sl = callee_slot(el.e)
@@ -121,6 +140,14 @@ def rule_reinit(P):
                             restored = o.env.get(ksel) == REAL
                             r.inst(("reinit", need, sigadd, nopen, notifiable, fail), {"need_reinit": need, "signal_added": sigadd, "notify_open": nopen, "was_notifiable": notifiable, "fail": fail,
                                                                                       "sequence": seq, "ret": ret})
+                            # a wake-up that was pending at fork time sits in the parent's descriptor; the child's new descriptor is empty, so the "a wake-up is already on its way"
+                            # flag must not survive (evthread_notify_base would swallow every later wake-up of the child's loop)
+                            if notifiable and not failed and o.env.get(B("is_notify_pending")) != 0 and not pending_reset_in_callee and nbad2[0] < 2:
+                                nbad2[0] += 1
+                                r.bad("K6:event_reinit:stale-notify-pending", "%s:%d" % (f.file, f.line), f.name,
+                                      "need_reinit=%d signal_added=%d notify_open=%d: the base was notifiable with a wake-up pending at fork time (is_notify_pending=1); event_reinit gives the child a new, "
+                                      "empty wake-up descriptor but returns with is_notify_pending=%r: every later evthread_notify_base() in the child returns early and the child's loop is never "
+                                      "woken by another thread" % (need, sigadd, nopen, o.env.get(B("is_notify_pending"))))
                             if (seq != want or ret != wret or not restored) and nbad < 3:
                                 nbad += 1
                                 r.bad("K6:event_reinit:sequence", "%s:%d" % (f.file, f.line), f.name,
